@@ -43,7 +43,7 @@ Proof.
   - destruct b; [injection H as <-; constructor|discriminate].
   - destruct b as [|t [|cnt r]]; [injection H as <-; constructor|discriminate|].
     cbn [aspath2_fuel] in H.
-    destruct (negb (seg_type_ok t)); [discriminate|].
+    destruct (negb (seg_type_ok t) || (cnt =? 0)); [discriminate|].
     destruct (widen2 (nat_of cnt) r) as [[w r']|] eqn:Ew; [|discriminate].
     destruct (aspath2_fuel f r') as [o'|] eqn:Er; [|discriminate].
     injection H as <-.
@@ -109,7 +109,7 @@ Proof.
     + destruct tb.
       * destruct (aspath2_fuel _ v) as [o|] eqn:E; [|discriminate]. injection H as <-.
         exists o. split; [reflexivity|]. eapply aspath2_wf; eassumption.
-      * destruct (aspath4_ok false v) eqn:E; [|discriminate]. injection H as <-.
+      * destruct (aspath4_ok true v) eqn:E; [|discriminate]. injection H as <-.
         exists v. split; [reflexivity|]. eapply aspath4_ok_wf; eassumption.
     + destruct (_ || _); [discriminate|].
       destruct (aspath4_ok true v) eqn:E; [|discriminate]. injection H as <-.
@@ -161,7 +161,7 @@ Proof.
     rewrite len_skipn. unfold nat_of. lia. }
   assert (Hbody : forall alen c3 arem3, (length c3 < f)%nat -> arem3 <= len c3 ->
      let body :=
-       if arem3 <? alen then Ok (s, arem3) else
+       if arem3 <? alen then Ok (s, N.max arem3 1) else
        let skip := skipn (nat_of alen) c3 in
        let arem' := arem3 - alen in
        if seen s code then
@@ -170,7 +170,9 @@ Proof.
          let s := mark_seen s code in
          match canonical_flags code with
          | Some expected =>
-           if negb (N.land (N.lxor flags expected) 192 =? 0) then attr_loop f tb skip arem' (add_err s code flags)
+           let flags_error := negb (N.land (N.lxor flags expected) 192 =? 0) in
+           let s := if flags_error then add_err s code flags else s in
+           if flags_error && negb ((code =? 14) || (code =? 15)) then attr_loop f tb skip arem' s
            else match (if Nat.ltb (length c3) (nat_of alen) then None
                        else attr_decode code flags (firstn (nat_of alen) c3) tb) with
                 | Some a => attr_loop f tb skip arem' (accept tb s a)
@@ -191,7 +193,12 @@ Proof.
     { destruct (_ || _); [split; [exact I|discriminate]|]. apply Hstep; assumption. }
     assert (Hm : attrs_ok (mark_seen s code)) by exact Hs.
     destruct (canonical_flags code) as [ef|] eqn:Ecf.
-    - destruct (negb _). { apply Hstep; assumption. }
+    - set (fe := negb _).
+      assert (Hm2 : attrs_ok (if fe then add_err (mark_seen s code) code flags else mark_seen s code))
+        by (destruct fe; exact Hm).
+      remember (if fe then add_err (mark_seen s code) code flags else mark_seen s code) as sm eqn:Esm. clear Esm.
+      destruct (fe && _). { apply Hstep; assumption. }
+      clear Hm. rename Hm2 into Hm.
       destruct (Nat.ltb (length c3) (nat_of alen)).
       { apply Hstep; try assumption. destruct (_ || _); exact Hm. }
       destruct (attr_decode code flags _ tb) as [a|] eqn:Ed.
